@@ -349,6 +349,16 @@ def step (s : St) (line : String) : St × String :=
     (match parseTreeObj rest with
      | some x => ({ s with trs := x :: s.trs }, ".")
      | none => ({ s with tbad := true }, "bad-op"))
+  | ["TM", _, st] =>
+    let v := if s.tbad then "TMUT FAIL unparsable-line" else
+      match buildElems s.te.reverse with
+      | [(0, e)] =>
+        (match Hw.XmlTree.importTree e with
+         | .reject => if st = "0" then "TMUT FAIL the-model-rejects-a-document-that-hwloc-loads" else "TMUT ok reject/" ++ st
+         | .ok _ => "TMUT ok accept/" ++ st
+         | .outside => "TMUT ok outside/" ++ st)
+      | _ => "TMUT FAIL malformed-stream"
+    ({ s with te := [] }, v)
   | ["TJ"] => ({ s with te := [], tos := [], trs := [] }, judgeTree s)
   | "CASE" :: _ => ({}, ".")
   | "OP" :: _ => (s, ".")
